@@ -229,3 +229,28 @@ Lemma minv_run ss sched : Forall WInv ss -> Forall WInv (mrun ss sched).
 Proof.
   revert ss. induction sched as [|[i l] tl IH]; intros ss H; [exact H|]. cbn -[Nat.ltb Nat.eqb]. apply IH. apply minv_step. exact H.
 Qed.
+
+(* ------------------------------------------------------------------ (C) the client's stream reader *)
+(* from a concrete position not beyond the end: every record from there on, each once, in order *)
+Lemma sel_run_at : forall rounds n i, rounds <> [] -> i <= n ->
+  sel_run true (SAt i) n rounds = seq i (n + appended rounds - i).
+Proof.
+  induction rounds as [|[b d] tl IH]; intros n i Hne Hi; [congruence|].
+  cbn [sel_run resolve orb]. unfold appended. cbn [fold_right fst snd]. fold (appended tl).
+  rewrite seq_length. replace (i + (n + b + d - i)) with (n + b + d) by lia.
+  destruct tl as [|r tl'].
+  - cbn [sel_run appended fold_right]. rewrite app_nil_r. f_equal. lia.
+  - rewrite (IH (n + b + d) (n + b + d)) by (try discriminate; lia).
+    replace (n + (b + d + appended (r :: tl')) - i) with ((n + b + d - i) + appended (r :: tl')) by lia.
+    rewrite seq_app. f_equal. f_equal; lia.
+Qed.
+
+(* a stream started at `tail`: everything appended after the first request was resolved *)
+Lemma sel_run_tail n b d tl : sel_run true STail n ((b, d) :: tl) = seq (n + b) (d + appended tl).
+Proof.
+  cbn [sel_run resolve orb]. rewrite seq_length. replace (n + b + d - (n + b)) with d by lia.
+  destruct tl as [|r tl'].
+  - cbn [sel_run appended fold_right]. rewrite app_nil_r. f_equal. lia.
+  - rewrite (sel_run_at (r :: tl') (n + b + d) (n + b + d)) by (try discriminate; lia).
+    rewrite seq_app. f_equal. f_equal; lia.
+Qed.
